@@ -246,6 +246,16 @@ pub fn gen_program_x(rng: &mut Rng, nvars: usize, nops: usize, allow_newvar: boo
             ops.push(Op::And(base, base + 1)); // base+5
             ops.push(Op::And(base + 4, base + 2)); // base+6
             ops.push(Op::Or(base + 5, base + 6)); // base+7 == base+3
+            // … and, with a fourth variable a: g = a . ite, r = g + !a, f = r . a (== g): the
+            // conjunction of a decision node with (the negation of) one of its own primes, reached
+            // by two histories.  No further random draws: later steps are the same as before.
+            if cur_vars >= 4 {
+                ops.push(Op::Var(vs[3], true)); // base+8
+                ops.push(Op::And(base + 8, base + 3)); // base+9  : g
+                ops.push(Op::Neg(base + 8)); // base+10
+                ops.push(Op::Or(base + 9, base + 10)); // base+11 : r
+                ops.push(Op::And(base + 11, base + 8)); // base+12 : f == g
+            }
             continue;
         }
         // asymmetric twins (one step in twelve): `!a . b` followed by `!b . a` for two pool entries
